@@ -13,7 +13,7 @@ from fractions import Fraction
 from .. import symx, terms as T, absint
 from ..frontend import AnalysisError, norm_text
 from ..poly import Algebra
-from ..rules import ret_term, outcomes, conjuncts, disjuncts, find_calls, D2R, timearg_scan
+from ..rules import ret_term, outcomes, conjuncts, disjuncts, find_calls, D2R, timearg_scan, int_set, iset_union, iset_compl, with_new_helpers
 from .. import units, guards, effects
 
 MANIFEST = {
@@ -90,16 +90,20 @@ def seasons(repo, rep):
     for k, tg in enumerate(SEASONS):
         outs = outcomes(repo, "Sun", q, arg_terms={nm[0]: T.sym("NUM_YEAR"), nm[1]: ("str", tg)})
         rets = [o for o in outs if o.kind == "ret"]
-        ivs = []
+        ivs, exact = [], True
         for o in rets:
-            for alt in dnf(o.cond):
-                iv = year_interval(alt)
-                if iv[0] <= iv[1]:
-                    ivs.append(iv)
-        ivs = sorted(set(ivs))
-        ok = bool(ivs) and ivs[0][0] == -1000 and ivs[-1][1] == 3000 and all(a[1] + 1 == b[0] for a, b in zip(ivs, ivs[1:]))
+            s_, ex = int_set(o.cond, T.sym("NUM_YEAR"))
+            ivs = iset_union(ivs, s_)
+            exact = exact and ex
+        ok = ivs == [(-1000, 3000)]
         raises_ = [o for o in outs if o.kind == "raise" and o.value == ("str", "ValueError")]
-        if ok and raises_:
+        rset = []
+        for o in raises_:
+            rset = iset_union(rset, int_set(o.cond, T.sym("NUM_YEAR"))[0])
+        ok = ok and rset == iset_compl([(-1000, 3000)])
+        if not exact:
+            rep.inconcl("R-RANGE-REFUSE", site + "[%s]" % tg, "the path conditions of the value-returning paths involve more than comparisons of the year with constants")
+        elif ok and raises_:
             rep.ok("R-RANGE-REFUSE", site + "[%s]" % tg, "returns for years %s, ValueError otherwise" % ivs, sample=(k == 0))
         else:
             rep.violation("R-RANGE-REFUSE", site, "year-range:" + tg, "value-returning years are %s, the property says exactly -1000..3000 (others ValueError)" % (ivs,))
@@ -107,7 +111,7 @@ def seasons(repo, rep):
         vals = set()
         for o in rets:
             for x in T.walk(("bag", o.value, o.cond)):
-                if x[0] == "call" and x[1] == ".index" and x[2][0] == "list" and x[3] == ("str", tg):
+                if x[0] == "call" and x[1] == ".index" and x[2][0] in ("list", "tuple") and x[3] == ("str", tg):
                     items = [e[1] for e in x[2][1:] if e[0] == "str"]
                     if tg in items:
                         vals.add(items.index(tg))
@@ -144,10 +148,14 @@ def season_exit(repo, rep):
     if len(loops) != 1:
         rep.inconcl("R-EXIT-BOUND", site, "expected one refinement loop, found %d" % len(loops))
         return
-    lp = loops[0]
+    lp = symx._normalise_do_while(loops[0])
     t = lp.test
+    neg = False
+    while isinstance(t, ast.UnaryOp) and isinstance(t.op, ast.Not):
+        neg, t = not neg, t.operand
     thr = var = None
-    if isinstance(t, ast.Compare) and len(t.ops) == 1 and isinstance(t.ops[0], (ast.Gt, ast.GtE)) and isinstance(t.left, ast.Call) \
+    stay = (ast.LtE, ast.Lt) if neg else (ast.Gt, ast.GtE)       # `not abs(c) <= THR` continues like `abs(c) > THR`
+    if isinstance(t, ast.Compare) and len(t.ops) == 1 and isinstance(t.ops[0], stay) and isinstance(t.left, ast.Call) \
             and norm_text(t.left.func) == "abs" and isinstance(t.left.args[0], ast.Name):
         var = t.left.args[0].id
         thr = const_value(repo, "Sun", t.comparators[0])
@@ -186,11 +194,14 @@ def eot(repo, rep):
     q = "Sun.equation_of_time"
     rep.fn("Sun", q)
     an = absint.analysis_for(repo)
-    evs = [e for e in an.events_for("anglewrap") if e.site == "Sun." + q]
+    fn = repo.func("Sun", q)
+    m = repo.mod("Sun")
+    fns = with_new_helpers(repo, "Sun", fn)
+    sites = {"Sun." + k for k, g in m.functions.items() if any(g is f for f in fns)}
+    evs = [e for e in an.events_for("anglewrap") if e.site.split(".<locals>")[0] in sites]
     for e in evs:
         rep.violation("R-ANGLE-WRAP", e.site, e.key, e.msg, construct="line %d" % e.node.lineno)
-    fn = repo.func("Sun", q)
-    has = any(isinstance(n, ast.Call) and isinstance(n.func, ast.Name) and n.func.id == "round" for n in ast.walk(fn))
+    has = any(isinstance(n, ast.Call) and isinstance(n.func, ast.Name) and n.func.id == "round" for f in fns for n in ast.walk(f))
     if not has:
         rep.violation("R-ANGLE-WRAP", "Sun." + q, "no-reduction", "the equation of time is not reduced to (-180, 180] degrees before conversion to minutes")
     elif not evs:
@@ -205,7 +216,7 @@ def eot(repo, rep):
     rep.floor("reduction idioms E - 360*round(E/360)", getattr(an, "wrap_sites", 0), 3)
     # package-wide: no other site
     for e in an.events_for("anglewrap"):
-        if e.site != "Sun." + q:
+        if e.site.split(".<locals>")[0] not in sites:
             rep.violation("R-ANGLE-WRAP", e.site, e.key, e.msg)
 
 
